@@ -26,6 +26,7 @@ import sys
 import tempfile
 
 from . import common
+from . import edgevals
 
 LIMB = 1 << 30
 MAXDIG = 4300
@@ -285,6 +286,12 @@ def rand_value(rng, depth, pairs=False, big=False):
     return d
 
 
+def rand_typed(rng, depth):
+    """a value of the domain built from dict / list / str / int SUBCLASSES (OrderedDict, defaultdict, a list subclass, str and int
+    subclasses: harness/edgevals.py) at every depth: JSON data to json.dumps, `==` to the plain structure"""
+    return edgevals.dress(rand_value(rng, depth), rng.choice(edgevals.STYLES))
+
+
 def nest(n, leaf):
     x = leaf
     for i in range(n):
@@ -301,6 +308,12 @@ def boundary_values():
     vals += [nest(6, 1), nest(40, "leaf"), nest(120, None), nest(7, {"k": [1.5, "\U0001f600", {"q": '"'}]})]
     vals += [{"app": 'Fire"fox\\', "title": "caf\u00e9 \u2014 \u65e5\u672c \U0001f600", "url": "https://x.y/?q=a%20b&c='d'", "n": 0}]
     vals += [{"nul": "\u0000", "ctl": "\u0001\u001f\x7f", "astral": "\U0001f600\U0010ffff", "lone": "\ud800", "big": 10 ** 40, "f": 1e-7}]
+    # round 5: cut-off titles (lone high / lone low surrogate), astral, NUL, U+2028 as values and keys; containers and scalars that are
+    # SUBCLASSES of dict / list / str / int at every depth (the wire form and the canonical form read them by isinstance)
+    vals += list(edgevals.EDGE_STRINGS) + [dict(d) for d in edgevals.EDGE_DATA] + [v for _, v in edgevals.dressed_corpus()]
+    vals += [edgevals.dress(d, st) for d in edgevals.EDGE_DATA[-2:] for st in ("mixed", "all")]
+    vals += [edgevals.StrSub("s\ud83d"), edgevals.IntSub(2 ** 63), edgevals.IntSub(-7), [edgevals.IntSub(0), True, edgevals.StrSub("")],
+             edgevals.ListSub(), edgevals.ODict(), edgevals.ListSub([edgevals.ODict()])]
     return vals
 
 
@@ -611,6 +624,7 @@ def _json_check(ck, prove):
     inside = boundary_values()
     inside += [rand_value(rng, rng.randrange(0, 7)) for _ in range(700 * N)]
     inside += [rand_scalar(rng) for _ in range(300 * N)]
+    inside += [rand_typed(rng, rng.randrange(1, 6)) for _ in range(120 * N)]
     outside = outside_values() + [rand_value(rng, rng.randrange(1, 5), pairs=True, big=not quick) for _ in range(150 * N)]
     values = inside + outside
     wires = [to_wire(v) for v in values]
@@ -748,7 +762,8 @@ def _json_check(ck, prove):
         text, eq, can = obs
         eq = eq or has_nan(d)                      # NaN != NaN in Python: such data is compared by canonical form only
         if inside_dom and (not eq or json.dumps(json.loads(text), sort_keys=True) != json.dumps(d, sort_keys=True)):
-            path = write_replay(ck, {"backend": be, "where": where, "data_json": json.dumps(d)})
+            path = write_replay(ck, dict({"backend": be, "where": where, "data_json": json.dumps(d)},
+                                         **({"data_classes": edgevals.tagged(d)} if edgevals.has_subclass(d) else {})))
             ck.failing_input(f"JSON:{be}:{where}:data", f"[{be}] data {show(d)} read back by {where} as {text[:160]}",
                              {"backend": be, "where": where, "replay_file": path, "data_json": show(d, 2000), "observed_json": text[:2000],
                               "rerun": f"VERIF_REPO={common.REPO} PYTHONPATH={common.REPO}:{common.VERIF} /venv/bin/python -m harness.jsonmodel replay {path}"})
@@ -789,7 +804,8 @@ def _json_check(ck, prove):
             if why and len(idx) == 1:
                 found = (_as_data(svals[idx[0]], 0), why)
             if found:
-                path = write_replay(ck, {"backend": be, "where": "insert+get", "data_json": json.dumps(found[0])})
+                path = write_replay(ck, dict({"backend": be, "where": "insert+get", "data_json": json.dumps(found[0])},
+                                             **({"data_classes": edgevals.tagged(found[0])} if edgevals.has_subclass(found[0]) else {})))
                 ck.failing_input(f"JSON:{be}:raised", f"[{be}] data {show(found[0])}: {found[1]}",
                                  {"backend": be, "replay_file": path, "data_json": show(found[0], 2000), "observed": found[1],
                                   "rerun": f"VERIF_REPO={common.REPO} PYTHONPATH={common.REPO}:{common.VERIF} /venv/bin/python -m harness.jsonmodel replay {path}"})
@@ -867,7 +883,7 @@ def replay(path):
     """re-run one stored value on one back end; exit 1 when it does not come back equal"""
     common.setup_impl_env()
     obj = json.load(open(path))
-    d = json.loads(obj["data_json"])
+    d = edgevals.untag(obj["data_classes"]) if "data_classes" in obj else json.loads(obj["data_json"])
     res = run_stores([d])
     r = res.get(obj["backend"], {})
     print(json.dumps(r, default=str)[:1500])
